@@ -233,3 +233,58 @@ func H_C13_sequence() {
 	vfNote(out)
 	vfAssert(out == want, "each try is all-or-nothing on its own; nothing of a failed body or of the catch scope survives")
 }
+
+// H_C13_large: a try body that renders 4095..8193 bytes (symbolic choice of sizes around
+// the usual buffer boundaries), through text and through an escaped value, and then fails
+// or not (symbolic), directly and nested in an outer try that succeeds: all of it reaches
+// the writer iff the body did not fail - buffering is not bounded by any block size.
+//
+//gosym:reach succeeded,failed
+func H_C13_large() {
+	sizes := []int{4095, 4096, 4097, 8192, 8193}
+	n := sizes[ndChoice("size", len(sizes))]
+	fails := ndBool("fails")
+	nested := ndBool("nested")
+	viaValue := ndBool("viaValue")
+	big := make([]byte, n)
+	for i := range big {
+		big[i] = byte('a' + i%26)
+	}
+	payload := string(big)
+	body := payload
+	if viaValue {
+		body = `{{ big }}`
+	}
+	src := `A{{ try }}` + body + `{{ mayFail() }}{{ catch }}C{{ end }}B`
+	if nested {
+		src = `A{{ try }}x{{ try }}` + body + `{{ mayFail() }}{{ catch }}C{{ end }}y{{ end }}B`
+	}
+	set := hxSet(nil, "/m.jet", src)
+	vars := make(VarMap)
+	vars.Set("big", payload)
+	vars.SetFunc("mayFail", func(a Arguments) reflect.Value {
+		if fails {
+			panic(errors.New("x"))
+		}
+		return reflect.ValueOf("")
+	})
+	out, err := hxExec(set, "/m.jet", vars, nil)
+	vfAssert(err == nil, "renders")
+	want := "A"
+	if nested {
+		want += "x"
+	}
+	if fails {
+		vfReach("failed")
+		want += "C"
+	} else {
+		vfReach("succeeded")
+		want += payload
+	}
+	if nested {
+		want += "y"
+	}
+	want += "B"
+	vfAssert(len(out) == len(want), "all-or-nothing for bodies larger than any buffer block")
+	vfAssert(out == want, "the bytes are those the body renders")
+}
